@@ -1,10 +1,12 @@
 import TpmVerif.Base.Trace
 import TpmVerif.Check.C16
+import TpmVerif.Check.C18
 /-! Line-protocol driver: `tpmmodel <Cxx> <trace file>`; prints one `MISMATCH` line per disagreement and a summary. -/
 open TpmVerif
 
 def checkers : List (String × (List Line → Report)) :=
-  [ ("C16", Check.C16.check) ]
+  [ ("C16", Check.C16.check),
+    ("C18", Check.C18.check) ]
 
 def main (args : List String) : IO UInt32 := do
   match args with
